@@ -38,6 +38,7 @@ var propC16 = &pProp{
 				if r.chance(1, 3) {
 					o.Stats = false // the parser's own default Stats value is the clock
 				}
+				o.ReuseOptions = r.chance(1, 2)
 				plan := drawPlan(r, gp.HasState)
 				if r.chance(1, 3) {
 					plan.NestedPct = 50
